@@ -17,6 +17,7 @@ from vlib import refber as rb
 
 LEVEL = "exploration"
 ISOLATE = True
+POOL = {}
 
 SPECIAL_NAMES = [b"\x06\x00", b"\x06\x01\x2b", b"\x06\x02\x2b\x06", b"\x0d\x00", b"\x0d\x01\x01", b"\x0d\x02\x01\x02",
                  b"\x0d\x03\x81\x82\x03", b"\x06\x01\x80", b"\x06\x03\x2b\x80\x80", b"\x0d\x01\x80", b"\x05\x00", b""]
@@ -53,6 +54,7 @@ def build_case(u):
     c["random"] = u.take(u.below(64)) if mode == "random" else b""
     c["nfirst"] = u.below(3)  # how many valid replies precede the hostile one (walks / pooled state)
     c["flagsel"] = u.below(12)  # v3: msgFlags override (None-like for >= 8: flags consistent with the body)
+    c["pooled"] = u.bool()
     return c
 
 
@@ -145,7 +147,26 @@ def execute(G, c):
         call = ("getbulk", rb.oid_text(c["base"]), 5)
     else:
         call = ("refresh",)
-    out = drivers.run_api(G, c["driver"], cfg, call, handler, timeout=0.12, max_steps=12, max_items=200)
+    kw = {}
+    if c["driver"] == "nb" and c.get("pooled"):
+        # history: the same raw session (and its cipher / iterator-independent state) serves many cases
+        key = cfg.describe()
+        if key not in POOL:
+            ln = ag.NbLink()
+            POOL[key] = (ln, drivers.NbClient(G, cfg, ln))
+        ln, client = POOL[key]
+        ln.recv_all()
+        # leftovers of an earlier case must not be mistaken for this case's reply
+        while True:
+            try:
+                client.sock.recv_get()
+            except BaseException as e:  # noqa: BLE001
+                if isinstance(e, BlockingIOError):
+                    break
+                if type(e).__name__ == "PanicException":
+                    raise core.Failure(panic_signature(e), "Rust panic while draining a pooled session: %s" % e)
+        kw = {"link": ln, "client": client}
+    out = drivers.run_api(G, c["driver"], cfg, call, handler, timeout=0.12, max_steps=12, max_items=200, **kw)
     info = "%s over %s [%s] mode=%s mutations=%r datagram=%s" % (
         op, cfg.describe(), c["driver"], c["mode"], state["notes"], (state["sent"] or b"").hex())
     if out.kind == "runaway":
